@@ -266,6 +266,60 @@ def condition(timed, ops, lock="RLock", rounds=1, copies=False):
     return build
 
 
+def wait_for_harness(timed, op="notify_all", copies=False):
+    """Waiters in wait_for(flag is set, timeout); one thread sets the flag and notifies."""
+    W = len(timed)
+
+    def build(S, syn):
+        base = syn.Condition()
+        conds = [E.clone_for_process(syn, base) if copies else base for _ in range(W + 1)]
+        out = S.out
+        flag = [False]
+
+        def mk(i):
+            c = conds[i]
+
+            def h_waiter():
+                with c:
+                    res = c.wait_for(lambda: flag[0], 1.0 if timed[i] else None)
+                    out[f"ret{i}"] = bool(res)
+                    out[f"flag{i}"] = flag[0]
+                    out[f"mine{i}"] = c._lock._semlock._is_mine()
+            return h_waiter
+
+        def h_setter():
+            c = conds[W]
+            with c:
+                flag[0] = True
+                out["set"] = 1
+                getattr(c, op)()
+
+        def oracle(S, v):
+            r = []
+            blocked = {b[0] for b in S.blocked}
+            for i in range(W):
+                if f"ret{i}" in out:
+                    if out[f"mine{i}"] is not True:
+                        r.append(("wait_for-returns-without-lock", f"waiter {i}"))
+                    if out[f"ret{i}"] != out[f"flag{i}"]:
+                        r.append(("wait_for-wrong-result",
+                                  f"waiter {i}: wait_for returned {out[f'ret{i}']} while the "
+                                  f"predicate was {out[f'flag{i}']}"))
+                    if out[f"ret{i}"] is False and not timed[i]:
+                        r.append(("wait_for-false-without-timeout", f"waiter {i}"))
+                    if out[f"ret{i}"] is False and out.get(f"fired:w{i}", 0) == 0:
+                        r.append(("wait_for-false-but-timer-did-not-fire", f"waiter {i}"))
+                elif f"w{i}" in blocked and op == "notify_all" and "set" in out and "s" not in blocked:
+                    r.append(("wait_for-missed-wakeup",
+                              f"waiter {i} still asleep although the flag was set and notify_all "
+                              f"called: {S.blocked}"))
+            if "s" in blocked:
+                r.append(("notifier-stuck", f"{S.blocked}"))
+            return r
+        return [(f"w{i}", mk(i)) for i in range(W)] + [("s", h_setter)], oracle
+    return build
+
+
 def event(prog, copies=False):
     """prog: list of per-thread op lists over set / clear / wait / twait.
     set/clear/wait all end with the release of the event's internal lock and the harness records
@@ -296,6 +350,8 @@ def event(prog, copies=False):
                         rec(f"op{i}.{j}", ("wait", ev.wait()))
                     elif op == "twait":
                         rec(f"op{i}.{j}", ("wait", ev.wait(1.0)))
+                    elif op == "is_set":
+                        rec(f"op{i}.{j}", ("is_set", ev.is_set()))
             return h_actor
 
         def oracle(S, v):
@@ -314,6 +370,17 @@ def event(prog, copies=False):
                                   f"{'set' if state else 'not set'} when it returned (order of "
                                   f"critical sections: {[e[1] for e in events]})"))
                         break
+            for seq, what in events:
+                if what in ("set", "clear"):
+                    state = what == "set"
+            if v == "ok":
+                # the flag semaphore is exactly the state left by the last set/clear
+                fv = S.sems[base._flag._semlock.name].value
+                if fv != (1 if state else 0):
+                    r.append((f"event-flag-drift:{fv}-while-{'set' if state else 'clear'}",
+                              f"all operations returned, last of set/clear leaves the event "
+                              f"{'set' if state else 'clear'}, but its flag semaphore is {fv} "
+                              f"(order of critical sections: {[e[1] for e in events]})"))
             blocked = [b for b in S.blocked]
             if v != "ok":
                 stuck = [b[0] for b in blocked]
@@ -344,14 +411,20 @@ def harnesses(tier):
               (f"cond-W2-untimed-notify_all{tag}", condition([False, False], ["notify_all"], copies=cp)),
               (f"cond-W2-Lock-notify_all{tag}", condition([True, False], ["notify_all"], lock="Lock", copies=cp)),
               (f"event-set-wait{tag}", event([["set"], ["wait"], ["twait"]], cp)),
-              (f"event-set-clear-wait{tag}", event([["set", "clear"], ["twait"], ["twait"]], cp))]
+              (f"event-set-clear-wait{tag}", event([["set", "clear"], ["twait"], ["twait"]], cp)),
+              (f"event-is_set-vs-wait{tag}", event([["set"], ["is_set", "is_set"], ["twait"]], cp)),
+              (f"event-is_set-vs-clear{tag}", event([["set", "clear"], ["is_set"], ["is_set"]], cp)),
+              (f"event-is_set-vs-set{tag}", event([["set", "set", "clear"], ["is_set"]], cp))]
     H += [("cond-W1-two-rounds", condition([True], ["notify", "notify"], rounds=2)),
           ("cond-W2-notify-notify", condition([True, False], ["notify", "notify"])),
           ("cond-W3-notify_all", condition([True, False, False], ["notify_all"])),
           # several time-outs landing inside one notify_all / notify
           ("cond-W2-both-timed-notify_all", condition([True, True], ["notify_all"])),
           ("cond-W2-both-timed-notify_all-Lock", condition([True, True], ["notify_all"], lock="Lock")),
-          ("cond-W2-both-timed-notify", condition([True, True], ["notify"]))]
+          ("cond-W2-both-timed-notify", condition([True, True], ["notify"])),
+          ("wait_for-W2", wait_for_harness([True, False])),
+          ("wait_for-W1-timed-notify", wait_for_harness([True], "notify")),
+          ("wait_for-W2/copies", wait_for_harness([True, True], copies=True))]
     if tier == "thorough":
         H += [("cond-W3-all-timed-notify_all", condition([True, True, True], ["notify_all"])),
               ("cond-W2-both-timed-notify_all-notify", condition([True, True], ["notify_all", "notify"])),
